@@ -279,6 +279,11 @@ def g_texts(Tb, G, sp, words):
                     toks[i + 1] = spell
                     w2 = tuple(w[:i + 1]) + (alt,) + tuple(w[i + 2:])
                     out.append(('accessor', tuple(w), ' '.join(toks), w2, i + 1, spell))
+                    if alt in ('STRING', 'NUMBER'):
+                        # no white space is needed between get/set and a string or numeric name (`.5` for the number)
+                        sp2 = "'s'" if alt == 'STRING' else '.5'
+                        text = ' '.join(toks[:i]) + ' ' + toks[i] + sp2 + ' '.join(toks[i + 2:])
+                        out.append(('accessor', tuple(w), text, w2, i + 1, spell))
     return out
 
 
